@@ -14,7 +14,10 @@
     core/environment/manager.go  CreateEnvironment (DEPLOY, CONFIGURE, teardown on failure) → `createEnvironment`
     core/server.go  ControlEnvironment (gRPC status included)  → `controlRpc`
 
-  bugs included. `Cfg` switches three small repairs on (notes/C02.fix-*.patch); `Cfg.code` is the code as it is.
+  `Cfg` has one switch per repair that went into /repo as a `fix:` commit (notes/C02.fix-{1,2,3}.patch):
+  `Cfg.code` (all on) is the code as it is, `Cfg.legacy` (all off) the code as it was before them — the former
+  refutations stay true statements about `Cfg.legacy`. The switches are tied to the source by go/ast facts
+  (Gen/C02Facts.lean, `C02_cfg_is_code`) and by the differential runs. What is still wrong in DEPLOY is modelled as it is.
 
   Time is logical: a task that does not answer makes `RunCommand` return its time-out error;
   the deploy loop either sees the root status ACTIVE or gives up.
@@ -46,15 +49,17 @@ inductive Launch where
   | nohost    -- no agent satisfies its constraints
   deriving DecidableEq, Repr, Inhabited
 
-/-- Repairs that can be switched on (all `false` = the code as it is). -/
+/-- The three repaired places (all `true` = the code as it is, all `false` = the code before the `fix:` commits). -/
 structure Cfg where
-  singleUsesCritical : Bool    -- fix-1: the single-response branch looks at the critical trait too
+  singleUsesCritical : Bool    -- fix-1: the single-response branch looks at the critical trait too (`isCriticalTarget`)
   emptyIsSuccess : Bool        -- fix-2: a command with no target succeeds; CONFIGURE with no active task does not wait
-  keepTransitionError : Bool   -- fix-3: ControlEnvironment reports the transition's error, not GO_ERROR's
+  keepTransitionError : Bool   -- fix-3: ControlEnvironment reports the transition's error, not GO_ERROR's (`goErr`)
   deriving DecidableEq, Repr
 
-def Cfg.code : Cfg := ⟨false, false, false⟩
-def Cfg.fixed : Cfg := ⟨true, true, true⟩
+/-- The code as it is. -/
+def Cfg.code : Cfg := ⟨true, true, true⟩
+/-- The code as it was before the three `fix:` commits. -/
+def Cfg.legacy : Cfg := ⟨false, false, false⟩
 
 structure Task where
   critical : Bool
@@ -109,13 +114,15 @@ def consolidate : List (Bool × Bool) → Response
 
 /-- The tail of `transitionTasks` / `configureTasks`: `true` = returns nil (no error).
     nil response ⇒ error; multi-response ⇒ error iff some entry of a CRITICAL task has an error;
-    single response ⇒ error iff it has an error (the trait is not looked at). -/
+    single response ⇒ error iff it has an error and the one target is critical (`isCriticalTarget`; legacy: the
+    trait was not looked at). -/
 def classify (cfg : Cfg) : Response → Bool
   | .nil => false
   | .single crit err => if cfg.singleUsesCritical then !(crit && err) else !err
   | .multi es => !(es.any (fun e => e.1 && e.2))
 
-/-- `Manager.transitionTasks` (START / STOP / RESET). -/
+/-- `Manager.transitionTasks` (START / STOP / RESET): `if len(tasks) == 0 { return nil }` first (legacy: a command
+    with zero targets was enqueued and came back as a nil response, i.e. an error). -/
 def transitionTasks (cfg : Cfg) (ts : List Target) : Bool :=
   if cfg.emptyIsSuccess && ts.isEmpty then true
   else classify cfg (consolidate (commit ts))
@@ -135,8 +142,8 @@ inductive BodyRes where
 def commandBody (cfg : Cfg) (ts : List Target) : BodyRes :=
   if transitionTasks cfg ts then .ok else .error
 
-/-- CONFIGURE: the message is sent only `if len(activeTasks) != 0`, the wait on stateChangedCh is
-    unconditional: with no active task nobody ever answers. -/
+/-- CONFIGURE: the message is sent, and the answer awaited, only `if len(activeTasks) != 0` (legacy: the wait on
+    stateChangedCh was unconditional: with no active task nobody ever answered). -/
 def configureBody (cfg : Cfg) (ts : List Target) : BodyRes :=
   if ts.isEmpty then (if cfg.emptyIsSuccess then .ok else .hang)
   else if configureTasks cfg ts then .ok else .error
@@ -181,8 +188,9 @@ def watcher (env : Env) (hooks : List Hook) : Env :=
   if g.2.2.isOk then g.1 else if g.1.st = .ERROR then g.1 else { g.1 with st := .ERROR }
 
 /-- `RpcServer.ControlEnvironment`: returns the environment and whether the gRPC status is OK.
-    `err = TryTransition(trans); if err != nil { err = TryTransition(GO_ERROR); if err != nil { SetState(ERROR) } }`
-    — the status is made from the LAST `err`. `watcherFirst`: the environment's watcher (a critical task went
+    `err = TryTransition(trans); if err != nil { if goErr := TryTransition(GO_ERROR); goErr != nil { SetState(ERROR) } }`
+    — the status is made from `err` (legacy: GO_ERROR's result was stored in `err` too, so the status was made from
+    the LAST one). `watcherFirst`: the environment's watcher (a critical task went
     to ERROR more than 0.5 s before the transition gave up) got the transition mutex before this handler did. -/
 def controlRpc (cfg : Cfg) (env : Env) (hooks : List Hook) (e : Ev) (bodyOk rnFail watcherFirst : Bool) : Env × Bool :=
   let r := tryTransition env hooks e bodyOk rnFail
